@@ -36,7 +36,7 @@ def utmNew (R : Type) [Scalar R] (ce : CtorEnv) (raw : RawParameters) : Except E
       let p := if p.flagSet (S "south") then p.setReal (S "y_0") 10000000.0 else p
       .ok { tag := S "btmerc", definition := raw.definition, invertible := true, params := p }
 
-/-- one tuple, forward (`lat_0` is ADDED to the latitude, as in the code) -/
+/-- one tuple, forward (northings are counted from the latitude of origin) -/
 def fwd (p : Parsed R) (c0 c1 : R) : R × R :=
   let ellps := p.ellps 0
   let eps := ellps.secondEccentricitySquared
@@ -45,7 +45,8 @@ def fwd (p : Parsed R) (c0 c1 : R) : R × R :=
   let x0 := Parsed.x p 0
   let y0 := Parsed.y p 0
   let k0 := Parsed.k p 0
-  let lat := c1 + lat0
+  let m0 := ellps.meridianLatitudeToDistance lat0
+  let lat := c1
   let s := Scalar.sin lat
   let c := Scalar.cos lat
   let cc := c * c
@@ -63,10 +64,10 @@ def fwd (p : Parsed R) (c0 c1 : R) : R × R :=
   let m := ellps.meridianLatitudeToDistance lat
   let znos4 := z * N * dlon * s / 4.0
   let ecc := 4.0 * eps * cc
-  let n := y0 + k0 * (m + N * theta2 + znos4 * (9.0 + ecc + oo * (20.0 * cc - 11.0)))
+  let n := y0 + k0 * (m - m0 + N * theta2 + znos4 * (9.0 + ecc + oo * (20.0 * cc - 11.0)))
   (e, n)
 
-/-- one tuple, inverse (`lat_0` is ADDED to the result, as in the code) -/
+/-- one tuple, inverse -/
 def inv (p : Parsed R) (c0 c1 : R) : R × R :=
   let ellps := p.ellps 0
   let eps := ellps.secondEccentricitySquared
@@ -76,7 +77,8 @@ def inv (p : Parsed R) (c0 c1 : R) : R × R :=
   let y0 := Parsed.y p 0
   let k0 := Parsed.k p 0
   -- footpoint latitude
-  let lat := ellps.meridianDistanceToLatitude ((c1 - y0) / k0)
+  let m0 := ellps.meridianLatitudeToDistance lat0
+  let lat := ellps.meridianDistanceToLatitude ((c1 - y0) / k0 + m0)
   let s := Scalar.sin lat
   let c := Scalar.cos lat
   let t := s / c
@@ -88,7 +90,7 @@ def inv (p : Parsed R) (c0 c1 : R) : R × R :=
   let theta5 := Scalar.atan (t * Scalar.cos theta4)
   -- latitude
   let xet := xx * xx * eps * t / 24.0
-  let latOut := lat0 + (1.0 + cc * eps) * (theta5 - xet * (9.0 - 10.0 * cc)) - eps * cc * lat
+  let latOut := (1.0 + cc * eps) * (theta5 - xet * (9.0 - 10.0 * cc)) - eps * cc * lat
   -- longitude
   let approx := lon0 + theta4
   let coef := eps / 60.0 * xx * x * c
